@@ -66,6 +66,85 @@ def rand_game(rng, nmin=3, nmax=14, p_back=0.3):
     return {"rewards": rewards, "players": players, "transition_list": tl, "final_states": finals}
 
 
+def stopping_game(rng, nmin=4, nmax=14):
+    """Well-formed *stopping* game, mostly solvable from state 0.
+
+    Built backwards over a fixed order: the last states are absorbing (sink,
+    finals).  A state is 'good' if a final state is reached with positive
+    probability whatever Player 2 does.  Back edges leave probabilistic states
+    freely, player states only towards probabilistic states, and every
+    probabilistic state keeps a forward branch - so every cycle leaks and every
+    play is absorbed with probability 1 under any strategies.
+    """
+    n = rng.randint(nmin, nmax)
+    n_final = 1 if rng.random() < 0.75 else 2
+    sink = n - n_final - 1
+    finals = list(range(sink + 1, n))
+    kinds = [None] * n
+    good = [False] * n
+    tl = [None] * n
+    rewards = [0] * n
+    for i in range(sink, n):
+        kinds[i] = PR
+        tl[i] = [(1, i)]
+        good[i] = i in finals
+    for i in range(sink - 1, -1, -1):
+        kinds[i] = rng.choices([P1, P2, PR], [0.35, 0.25, 0.4])[0]
+    want_dead = set(i for i in range(1, sink) if rng.random() < 0.2)
+    for i in range(sink - 1, -1, -1):
+        kind = kinds[i]
+        later_good = [j for j in range(i + 1, n) if good[j]]
+        later_dead = [j for j in range(i + 1, n) if not good[j]]
+        k = rng.choice([1, 2, 2, 2, 3, 3, 4])
+        succ = []
+        if i in want_dead:
+            succ = [rng.choice(later_dead) for _ in range(min(k, 2))]
+        elif kind == P2:
+            succ = [rng.choice(later_good) for _ in range(k)]
+            if rng.random() < 0.08:
+                succ[rng.randrange(len(succ))] = rng.choice(later_dead)   # Player 2 can spoil it
+        else:
+            succ = [rng.choice(later_good)]
+            n_dead = 0
+            while len(succ) < k:
+                r = rng.random()
+                if r < 0.22 and (n_dead == 0 or rng.random() < 0.15):
+                    succ.append(rng.choice(later_dead))
+                    n_dead += 1
+                elif r < 0.45 and i > 0:
+                    # back edge: anywhere from a chance state, only onto chance states from a player
+                    cands = [j for j in range(0, i + 1) if kind == PR or kinds[j] == PR]
+                    cands = [j for j in cands if j != i or kind == PR]
+                    succ.append(rng.choice(cands) if cands else rng.choice(later_good))
+                else:
+                    succ.append(rng.choice(later_good))
+            head = succ[0]
+            rng.shuffle(succ)
+            if kind == PR and head <= i:
+                succ[0] = rng.choice(later_good)
+        if kind == PR:
+            # keep one forward branch with positive probability
+            if all(sx <= i for sx in succ):
+                succ[0] = rng.choice(later_good + later_dead)
+            ps = _probs(rng, len(succ))
+            tl[i] = [(p_, sx) for p_, sx in zip(ps, succ)]
+        else:
+            if kind == P2 and len(set(succ)) < len(succ) and rng.random() < 0.5:
+                succ = list(dict.fromkeys(succ))
+            acts = rng.sample(ACTIONS, len(succ))
+            tl[i] = [(a, sx) for a, sx in zip(acts, succ)]
+        fw = [sx for sx in succ if sx > i]
+        if kind == P2:
+            good[i] = all(good[sx] for sx in succ if sx > i) and bool(fw)
+        else:
+            good[i] = any(good[sx] for sx in fw)
+        r = 0 if rng.random() < 0.3 else rng.randint(1, 9)
+        if rng.random() < 0.06:
+            r = rng.choice([0.5, 1.25, 5 / 3, 10 ** rng.randint(6, 20)])
+        rewards[i] = r
+    return {"rewards": rewards, "players": kinds, "transition_list": tl, "final_states": finals}
+
+
 def _probs(rng, k):
     if k == 1:
         return [1 if rng.random() < 0.7 else 1.0]
@@ -156,6 +235,9 @@ def bad_game(rng, base=None, rule=None):
 # generator parameters
 # ---------------------------------------------------------------------------
 
+EXTREME_PROBS = [1e-9, 1e-11, 1e-12, 1e-15, 1e-300, 5e-324, 1 - 1e-9, 1 - 1e-11, 1 - 1e-12, 1 - 1e-15, 1 - 2 ** -53]
+
+
 def pct(rng):
     return rng.randint(1, 99) / 100
 
@@ -178,7 +260,7 @@ def gen_params(rng, cls=None):
             return pct(rng)
         if style < 0.85:
             return round(rng.uniform(0.01, 0.99), rng.choice([3, 5, 17]))
-        return rng.choice([0.01, 0.99, 0.5, 0.001, 0.999])
+        return rng.choice([0.01, 0.99, 0.5, 0.001, 0.999] + EXTREME_PROBS)
     return {
         "seed": rng.choice([0, 1, 7, 47, rng.randint(0, 10 ** 6), rng.randint(0, 2 ** 40)]),
         "width": w, "length": l,
